@@ -304,6 +304,7 @@ func hugeList() []string {
 	}
 	return out
 }
+
 var shippedBuilt = map[string]*spg.WordList{}
 
 func runC05(c *Ctx, si interface{}) {
